@@ -620,6 +620,12 @@ func (t *RaftTransaction) ListPage(ctx context.Context, prefix string, after str
 		presentKeys = append(presentKeys, nextPresentEntry)
 	}
 	verifyLimit := len(presentKeys)
+	if nextPresentEntry == "" {
+		// We ran out of entries in storage rather than hitting the limit.
+		// Verifying only the entries we have seen would miss entries that get
+		// added after the last one, so verify the complete remainder instead.
+		verifyLimit = math.MaxInt32
+	}
 	listParams, contentsHash, err := createListVerificationEntry(prefix, after, verifyLimit, presentKeys)
 	if err != nil {
 		return nil, err
